@@ -30,8 +30,8 @@ PROPS["C09"] = dict(
         run("edits", "c09_rc", "w3c_edits", "rc", dict(procs=5, cases=40000), dict(procs=4, cases=2000000)),
         run("helpers", "c09_rc", "w3c_helpers", "rc", dict(procs=1, cases=30000), dict(procs=1, cases=1000000)),
         run("bytes-fuzz", "c09_fuzz", "w3c_bytes", "fuzz", dict(procs=4, cases=200000, max_len=300),
-            dict(procs=5, cases=3000000, max_len=600), replay_bin="c09_rc"),
+            dict(procs=5, cases=2000000, max_len=600), replay_bin="c09_rc"),
         run("edits-fuzz", "c09_fuzz", "w3c_edits", "fuzz", dict(procs=2, cases=100000, max_len=200),
-            dict(procs=2, cases=1500000, max_len=300), replay_bin="c09_rc"),
+            dict(procs=2, cases=1000000, max_len=300), replay_bin="c09_rc"),
     ],
 )
